@@ -444,6 +444,29 @@ func (fr *Frame) callByContract(ct *Contract, callee *ssa.Function, sig *types.S
 		}
 	}
 	env := fr.calleeEnv(ct, callee, sig, args, h, invoke)
+	// ghost parameters: bound to the caller's ghost of the same name, else arbitrary
+	for _, g := range ct.Ghosts {
+		parts := strings.Fields(g)
+		if len(parts) != 2 {
+			continue
+		}
+		var found *Val
+		for f := fr; f != nil && found == nil; f = f.parent {
+			if v, ok := f.names[parts[0]]; ok && v.S == parts[1] {
+				vv := v
+				found = &vv
+			}
+		}
+		if found == nil {
+			n := u.fresh("ghost_"+parts[0], parts[1])
+			var ty types.Type
+			if parts[1] == "Int" {
+				ty = intT
+			}
+			found = &Val{T: n, Ty: ty, S: parts[1]}
+		}
+		env.vars[parts[0]] = *found
+	}
 	for _, l := range ct.Lets {
 		env.vars[l.Name] = env.eval(l.Expr)
 	}
